@@ -21,13 +21,12 @@ inductive Region where
   | F_panic_nobody        -- map: reserved method declared without a body: ast.Inspect(nil body)
   | F_panic_setteriface   -- new -getset: makeGetSet calls Underlying() on a nil type
   | F_panic_univ          -- rest: testNode dereferences the nil package of an embedded universe type
-  | F_clean_error         -- Clean fails after the files were written
   deriving DecidableEq, Repr
 
 def Region.str : Region → String
   | .WF => "WF" | .F_panic_valuerecv => "F_panic_valuerecv" | .F_panic_unnamed => "F_panic_unnamed"
   | .F_panic_nobody => "F_panic_nobody" | .F_panic_setteriface => "F_panic_setteriface"
-  | .F_panic_univ => "F_panic_univ" | .F_clean_error => "F_clean_error"
+  | .F_panic_univ => "F_panic_univ"
 
 def region (d : Damage) : Region :=
   match d with
@@ -36,7 +35,6 @@ def region (d : Damage) : Region :=
   | .manualNoBody => .F_panic_nobody
   | .setterIface => .F_panic_setteriface
   | .univEmbed => .F_panic_univ
-  | .cleanNoNewline => .F_clean_error
   | _ => .WF
 
 end ShootVerif.Phases
